@@ -123,6 +123,14 @@ class C10(ValueCheck):
             st.fixed_dictionaries({"e": tn, "real": st.just(True), "envs": gen.envs(names=SYMS, n=2, value=gen.real_env_value())}))
 
     @staticmethod
+    def zero_base_pow(r):
+        if isinstance(r, list) and r:
+            if r[0] == "pow" and isinstance(r[1], list) and ((r[1][0] == "integer" and r[1][1] == 0) or (r[1][0] == "real_double" and r[1][1] == 0)):
+                return True
+            return any(C10.zero_base_pow(x) for x in r[1:])
+        return False
+
+    @staticmethod
     def nonholo_in(r):
         if isinstance(r, list):
             if r and r[0] in NONHOLO:
@@ -133,6 +141,9 @@ class C10(ValueCheck):
     def judge(self, case):
         rec, envs, real = case["e"], case["envs"], case["real"]
         if not real and self.nonholo_in(rec):
+            return
+        if self.zero_base_pow(rec):
+            self.skip("zero_base_power")   # 0**u: value 0 but the rule 0**u*log(0) is -oo*0 (not judged)
             return
         margin = 1e-6 if real else None
         if on.resource_blocked(rec, envs[0], 100, FUNCS):
